@@ -2,6 +2,8 @@
 import itertools
 import math
 
+import numpy as np
+
 from hypothesis import strategies as st
 
 from ..core import Verdict, close
@@ -150,7 +152,7 @@ def numeric_case(draw):
         wrong_unit = True
     return {"kind": "numeric", "custom": custom, "dim": dim, "expr": e, "unit": unit,
             "mismatch": other, "wrong_unit": wrong_unit, "as_node": draw(st.booleans()),
-            "prelude": custom and draw(st.booleans())}
+            "prelude": custom and draw(st.booleans()), "int_node": draw(st.integers(0, 4)) == 0}
 
 
 @st.composite
@@ -415,10 +417,22 @@ def check_numeric(case, v):
     try:
         if case["as_node"]:
             u = f" {case['unit']}" if case["unit"] else ""
-            env = make_env(custom, f'result float = ("{text}"){u}')
+            ntype = "int" if case.get("int_node") else "float"
+            env = make_env(custom, f'result {ntype} = ("{text}"){u}')
             got = env.data(Format.TUPLE)["result"]
             got = got[0] if isinstance(got, tuple) else got
-            how = f'node: result float = ("{text}"){u}'
+            how = f'node: result {ntype} = ("{text}"){u}'
+            if ntype == "int":
+                # an integer node holds the nearest integer of the result (ties are not compared), of either sign
+                frac = abs(exp - math.floor(exp) - 0.5)
+                if not abs(exp) < 1e15 or frac < 1e-6:
+                    return v.discard("int-node-tie-or-huge")
+                if not isinstance(got, (int, np.integer)) or int(got) != int(round(exp)):
+                    return v.fail("numeric-value", f"{how} = {got!r}, the result is {exp!r} {case['unit'] or ''} "
+                                                   f"(nearest integer {int(round(exp))})")
+                v.nt(exp < 0 or bool(case["unit"]))
+                v.label("numeric", "int_node", "negative_result" if exp < 0 else "positive_result")
+                return
         else:
             env = make_env(custom)
             with NumericalSolver(env) as s:
